@@ -2,6 +2,7 @@
 // Env: VERIF_FUZZ_REPORT=<prefix>  -> report written to <prefix>.<pid>.json / .hashes at exit
 //      VERIF_KNOWN=sig,sig         -> signatures tolerated (counted)
 #include "harness.h"
+#include <cerrno>
 #include <unistd.h>
 
 extern "C" const char* __asan_default_options()
@@ -60,6 +61,7 @@ extern "C" int LLVMFuzzerInitialize(int*, char***)
 extern "C" int LLVMFuzzerTestOneInput(const uint8_t* data, size_t size)
 {
     g_rep.begin_case();
+    errno     = ambient_errno(data, size);
     Verdict v = run_case(data, size, g_rep);
     if (v.kind == Verdict::Fail)
     {
